@@ -261,6 +261,7 @@ def run(slice_, limit=None, only_ops=None):
     finally:
         subprocess.run(["git", "-C", "/repo", "worktree", "remove", "--force", d], stdout=subprocess.DEVNULL, stderr=subprocess.DEVNULL)
         shutil.rmtree(d, ignore_errors=True)
+        shutil.rmtree(os.path.join(tempfile.gettempdir(), "vf_out_other_tree", os.path.basename(d.rstrip("/"))), ignore_errors=True)
 
 
 def rerun(slice_):
@@ -313,6 +314,7 @@ def rerun(slice_):
     finally:
         subprocess.run(["git", "-C", "/repo", "worktree", "remove", "--force", d], stdout=subprocess.DEVNULL, stderr=subprocess.DEVNULL)
         shutil.rmtree(d, ignore_errors=True)
+        shutil.rmtree(os.path.join(tempfile.gettempdir(), "vf_out_other_tree", os.path.basename(d.rstrip("/"))), ignore_errors=True)
 
 
 def report():
